@@ -55,7 +55,7 @@ text = ["## 10. Seeded changes (realistic property-breaking edits) and what catc
         "TracerDetach under contract and detach cases in the tracer stand-in; C05-7 negotiation family also",
         "under C05; C16-6 and C16-8 the parse step `hParseMsg` and the telemetry tracer's record anchor under",
         "contract; C04-7 `EvRemove` under contract; C19-7 `State.Clone` keeps nil vs. empty, `StateSet` family",
-        "under contract (section 9.6). Earlier",
+        "under contract (section 11). Earlier",
         "rounds: see 8.2 (loop-head havoc found through C14-1) and the `check_props` entries of the",
         "seeds that a neighbouring property's check catches (C01-4 by C02, C14-4 by C17). Still missed,",
         "with the reason in the table: C15-2, C15-5, C17-4 (C12-8 was missed until the race-detector",
